@@ -4,6 +4,7 @@ import (
 	"fmt"
 	"sort"
 	"strings"
+	"sync"
 
 	"github.com/ipld/go-ipld-prime"
 	"github.com/ipld/go-ipld-prime/codec/dagjson"
@@ -164,6 +165,111 @@ func c12Class(segs []refmodel.Seg, v datamodel.Node) string {
 	return "unlocated"
 }
 
+// ---- large values ----
+
+type c12LargeCase struct {
+	Kind string       `json:"kind"` // list | bytes | string
+	N    int          `json:"n"`
+	Seg  refmodel.Seg `json:"seg"`
+}
+
+func (c *c12LargeCase) Weight() int { return c.N }
+
+var c12LargeMemo sync.Map
+
+func c12LargeValue(kind string, n int) datamodel.Node {
+	key := fmt.Sprint(kind, n)
+	if v, ok := c12LargeMemo.Load(key); ok {
+		return v.(datamodel.Node)
+	}
+	var v datamodel.Node
+	switch kind {
+	case "list":
+		items := make([]datamodel.Node, n)
+		for i := range items {
+			items[i] = nInt(int64(i))
+		}
+		v = nList(items...)
+	case "bytes":
+		b := make([]byte, n)
+		for i := range b {
+			b[i] = byte(i * 7)
+		}
+		v = nBytes(b)
+	default:
+		var sb strings.Builder
+		for i := 0; i < n; i++ {
+			sb.WriteString([]string{"a", "é", "日", "z"}[i%4])
+		}
+		v = nStr(sb.String())
+	}
+	c12LargeMemo.Store(key, v)
+	return v
+}
+
+func c12LargeSub() *engine.Sub {
+	return &engine.Sub{
+		Name:  "large-values",
+		Rule:  "lists, byte strings and (multi-byte) strings of n elements for n on both sides of 256, 4096, 16384 and 65536, resolved with one index or slice segment that keeps almost everything, half, or the last elements (both signs, in and out of range); compared with the per-segment reference; non-trivial = all",
+		Bound: func(string) string { return "3 kinds x 9 sizes (255..70000) x 14 segments" },
+		Gen: func(tier string, emit func(any) bool) {
+			for _, kind := range []string{"list", "bytes", "string"} {
+				for _, n := range []int{255, 256, 4095, 4096, 16383, 16384, 16385, 65536, 70000} {
+					segs := []refmodel.Seg{
+						{Kind: "slice", Lo: ip(1)}, {Kind: "slice", Hi: ip(-1)}, {Kind: "slice", Lo: ip(-2)}, {Kind: "slice", Lo: ip(1), Hi: ip(n - 1)}, {Kind: "slice", Lo: ip(n / 2)}, {Kind: "slice", Hi: ip(n / 2)},
+						{Kind: "slice", Lo: ip(0), Hi: ip(n)}, {Kind: "slice", Lo: ip(-n), Hi: ip(n + 5)}, {Kind: "slice", Lo: ip(3), Hi: ip(16384 + 3)},
+					}
+					if kind != "string" {
+						segs = append(segs, refmodel.Seg{Kind: "index", Index: n - 1}, refmodel.Seg{Kind: "index", Index: -n}, refmodel.Seg{Kind: "index", Index: n}, refmodel.Seg{Kind: "index", Index: -n - 1, Opt: true}, refmodel.Seg{Kind: "index", Index: -1})
+					}
+					for _, sg := range segs {
+						if !emit(&c12LargeCase{Kind: kind, N: n, Seg: sg}) {
+							return
+						}
+					}
+				}
+			}
+		},
+		NewCase: func() any { return &c12LargeCase{} },
+		Run: func(ctx *engine.Ctx, c any) {
+			cs := c.(*c12LargeCase)
+			v := c12LargeValue(cs.Kind, cs.N)
+			segs := []refmodel.Seg{cs.Seg}
+			sel, err := selector.Parse(refmodel.SelText(segs))
+			ctx.States(1)
+			ctx.Eval(1)
+			ctx.Trans(1)
+			ctx.Nontrivial(1)
+			if err != nil {
+				ctx.Failf(cs, "parse-rejects-wellformed", "Parse(%s): %v", refmodel.SelText(segs), err)
+				return
+			}
+			got, gerr := sel.Select(v)
+			want := refmodel.Resolve(segs, v)
+			if want.Status == refmodel.SelDontCare {
+				ctx.Outcome("dont-care")
+				return
+			}
+			gs := implStatus(got, gerr)
+			ctx.Outcome(gs.String())
+			ok := gs == want.Status
+			if ok && gs == refmodel.SelValue {
+				ok = ipld.DeepEqual(got, want.Node)
+			}
+			if !ok {
+				gl, wl := int64(-1), int64(-1)
+				if gs == refmodel.SelValue && (got.Kind() == datamodel.Kind_List) {
+					gl = got.Length()
+				}
+				if want.Status == refmodel.SelValue && want.Node.Kind() == datamodel.Kind_List {
+					wl = want.Node.Length()
+				}
+				ctx.Failf(cs, "large-value/seg:"+cs.Seg.Kind+"/on:"+cs.Kind, "%s on a %s of %d elements: implementation %s (list length %d), reference %s (list length %d)", refmodel.SelText(segs), cs.Kind, cs.N, gs, gl, want.Status, wl)
+			}
+		},
+	}
+}
+
 func C12() *engine.Check {
 	segAlpha := c12Segments()
 	data := selectorData()
@@ -278,7 +384,7 @@ func C12() *engine.Check {
 			Gen:     gen(2),
 			NewCase: func() any { return &c12Case{} },
 			Run:     run,
-		}, c12ConcSub(), concRaceSub("C12")},
+		}, c12LargeSub(), c12ConcSub(), concRaceSub("C12")},
 		Assumptions: []string{
 			"don't-care: optional slice/iterator segments that cannot apply; any segment after them; order of a map's values under the iterator (compared as a multiset, and an index/slice on such a list is not compared)",
 			"applying a non-optional segment to 'no value' is an error, an optional field/index to 'no value' is 'no value' (a failing segment in the sense of the property)",
